@@ -11,6 +11,9 @@ def run(ctx: Ctx) -> None:
     from ..tables import t67_transforms
     with ctx.only("T67.inverse-velocity"), ctx.parallel():  # inverse / link creation followed by reading the buffered field (shared with C07)
         t67_transforms.run_inverse(ctx)
+    with ctx.parallel():
+        t67_transforms.run_linked_linear(ctx)
+    ctx.floor("T6x.linked-linear", 14)
     ctx.floor("T67.inverse-velocity", 30)
     ctx.floor("T6x.composite", 1)
     ctx.floor("T6x.linked-inverse", 2)
@@ -45,6 +48,9 @@ def mutants(prog):
         ("grid_: a grid that differs only in align_corners is ignored", "deepali.spatial.base", "SpatialTransform.grid_", "if self._grid == grid and self._grid.align_corners() == grid.align_corners():", "if self._grid == grid:", "T6x.regrid"),
         ("link_ keeps the buffered field", "deepali.spatial.parametric", "ParametricTransform.link_", "            self.reset_parameters()\n    self.clear_buffers()\n    return self", "            self.reset_parameters()\n    return self", "T6x."),
         ("functional data(): module slot kept", "deepali.spatial.parametric", "ParametricTransform.data", "if isinstance(params, torch.nn.Module):", "if False:", "T6x."),
+        ("has_parameters of a linked transform: own slot only", P, "ParametricTransform.has_parameters", "return params.has_parameters()", "return False", "T6x.linked-linear"),
+        ("bspline regrid: domain check by extent only", S, "BSplineTransform.grid_", "if not grid.same_domain_as(current_grid):", "if not torch.allclose(grid.cube_extent(), current_grid.cube_extent()):", "another domain"),
+        ("bspline regrid: domain check dropped", S, "BSplineTransform.grid_", "if not grid.same_domain_as(current_grid):", "if False:", "another domain"),
     ]
     for name, mod, fn, old, new, expect in specs:
         ov = source_sub(prog, mod, fn, old, new)
